@@ -54,6 +54,10 @@ class Session:
         else:
             logging.disable(logging.CRITICAL)
         self.hist['logging:' + self.logmode] += 1
+        import locale
+        self.hostenv = os.environ.get('VERIF_HOSTENV_NAME', 'plain')
+        self.hist['host-environment:%s (text encoding %s, file names %s, TZ %s)' % (
+            self.hostenv, locale.getpreferredencoding(False), sys.getfilesystemencoding(), os.environ.get('TZ', 'unset'))] += 1
         import mosromgr.mostypes as mt
         import mosromgr.exc as exc
         self.mt = mt
